@@ -4,7 +4,7 @@
    The fact [r_ok] of a ProveToRV (32) request stands for: token signed by the key of the registered voucher's device
    certificate for the claimed GUID, nonce = the one issued in this session, registration not expired.  Expiry and the
    device-side check are exercised on the implementation (clock positions around the expiry second; altered blobs). *)
-From FDO Require Import Cbor.Typed Cose.Sign1 Cose.Sign1Facts Fdo.Server Fdo.ServerFacts Fdo.Owner Fdo.OwnerFacts.
+From FDO Require Import Cbor.Typed Cose.Sign1 Cose.Sign1Facts Fdo.Server Fdo.ServerFacts Fdo.Owner Fdo.OwnerFacts Fdo.OwnerHonest Cbor.RoundTripWf.
 Local Open Scope N_scope.
 
 (* RVRedirect (33) answers only a 32 passing every check, with the token of a TO1 session whose HelloRV was answered *)
@@ -69,6 +69,18 @@ Theorem C07_proof_bytes_complete : forall O_der O_rfc O_verify registered nonce 
   prove_to_rv_ok O_der O_rfc O_verify registered nonce body = true.
 Proof. exact prove_to_rv_complete. Qed.
 Print Assumptions C07_proof_bytes_complete.
+
+(* the honest device is never refused: its well-formed token, ENCODED, passes (codec round trip + completeness) *)
+Theorem C07_honest_accepted : forall O_der O_rfc O_verify registered nonce fe fe' prot unprot pl sig eat body guid key,
+  RoundTripWf.wf O_der 0 ty_token (VList [VMap prot; VMap unprot; VRaw pl; VBytes sig]) ->
+  enc fe ty_token (VList [VMap prot; VMap unprot; VRaw pl; VBytes sig]) = Ok body ->
+  RoundTripWf.wf O_der 0 ty_eat (VMap eat) -> enc fe' ty_eat (VMap eat) = Ok pl ->
+  claim 10 eat = Some (VBytes nonce) -> claim 256 eat = Some (VBytes (byte_of_N 1 :: guid)) -> length guid = 16%nat ->
+  registered guid = Some key ->
+  sign1_verify O_der O_rfc O_verify TRaw TBytes key prot (Some (VRaw pl)) None sig (VBytes []) = Ok true ->
+  prove_to_rv_ok O_der O_rfc O_verify registered nonce body = true.
+Proof. exact honest_prove_to_rv. Qed.
+Print Assumptions C07_honest_accepted.
 
 Example C07_run :
   snd (run [] [mkreq 30 TInvalid true false false; mkreq 32 (TSess 0) false false false;
